@@ -85,9 +85,12 @@ def link (m : Bytes) (st : St) (par : Option Nat) (pslot cp : Nat) (writes : Lis
   | none => (setRoot st m cp, writes)
   | some q => ({ st with heap := setChild st.heap q pslot cp }, q :: writes)
 
-/-- first visit of `current` as a future parent: clone it unless it is in the writable cache, and link the clone -/
+/-- first visit of `current` as a future parent: clone it unless it is in the writable cache (a hit moves it to the
+    front of the recency order), and link the clone -/
 def visit (m : Bytes) (st : St) (current pslot : Nat) (par : Option Nat) (writes : List Nat) : St × Nat × List Nat :=
-  if st.writable.contains current then (st, current, writes)
+  if st.writable.contains current then
+    -- `t.writable.Get(p)` hit: the entry becomes the most recently used (Model/LRU.get; Props/C03LRU.heap_visit_is_cache_get)
+    ({ st with writable := current :: st.writable.filter (· != current) }, current, writes)
   else ((link m (cloneOf st current).1 par pslot (cloneOf st current).2 writes).1, (cloneOf st current).2,
         (link m (cloneOf st current).1 par pslot (cloneOf st current).2 writes).2)
 
